@@ -48,7 +48,7 @@ pub fn gen_fees(r: &mut Rng) -> PoolFee {
 }
 
 pub fn gen_decimals(r: &mut Rng) -> u8 {
-    match r.below(12) {
+    match r.below(14) {
         0 => 0,
         1 | 2 | 3 => 6,
         4 => 8,
